@@ -248,7 +248,7 @@ func (r *runner) overlayFor(u *UnitCfg) (map[string][]byte, error) {
 		if err != nil {
 			return nil, err
 		}
-		ov[filepath.Join(r.repo, dir, f)] = b
+		ov[filepath.Join(r.repo, dir, filepath.Base(f))] = b
 	}
 	for dst, src := range r.mutOverlay {
 		b, err := os.ReadFile(src)
@@ -463,6 +463,11 @@ func (r *runner) run(out, onlyEntry string) int {
 					v.Confirmed = "same obligation as a replayed counterexample (not replayed separately)"
 					continue
 				}
+				if r.matchKnown(v) != nil {
+					v.TapePath = r.writeTape(v, tc.Params)
+					v.Confirmed = "native: not replayed again, matches a listed known finding"
+					continue
+				}
 				r.confirm(u, ld.Pkg.Pkg.Name(), v, tc.Params)
 				confirmedLabel[key] = v.Confirmed
 			}
@@ -662,7 +667,7 @@ func (r *runner) nativeRun(u *UnitCfg, pkgName string, tape string) (string, err
 	}
 	var dir string
 	for f, d := range u.Files {
-		rep[filepath.Join(r.repo, d, f)] = filepath.Join(r.hdir, f)
+		rep[filepath.Join(r.repo, d, filepath.Base(f))] = filepath.Join(r.hdir, f)
 		dir = d
 	}
 	for dst, src := range r.mutOverlay {
